@@ -17,23 +17,23 @@ Proof. vm_compute. reflexivity. Qed.
    aliases, both constraint styles and every JSON value: valid under the schema implies accepted by
    the generated model *)
 Theorem C03_valid_accepted :
-  forall o fc s p v,
+  forall o fc rq s p v,
     o_noalias o = false -> prefix_ok U0 (o_prefix o) = true ->
-    supported s = true -> valid s v = true -> accepts (gen o fc p s) v = true.
+    supported s = true -> valid s v = true -> accepts (gen o fc rq p s) v = true.
 Proof.
-  intros o fc s p v Hno HP. apply accept_valid; [exact Hno|]. exact (names_total o C03_tables_ok HP).
+  intros o fc rq s p v Hno HP. apply accept_valid; [exact Hno|]. exact (names_total o C03_tables_ok HP).
 Qed.
 
 (* the members of a generated class: pairwise distinct python names, and read by wire name (alias,
    or the python name when there is no alias) they are exactly the schema's member names in order -
    so validating by alias and dumping by alias keeps every key *)
 Theorem C03_wire_names :
-  forall o fc props closed,
+  forall o fc rq props closed,
     o_noalias o = false -> prefix_ok U0 (o_prefix o) = true ->
-    exists fields, gen o fc PTop (SObj props closed) = TModel fields closed
+    exists fields, gen o fc rq PTop (SObj props closed) = TModel fields closed
       /\ map (fun f => wire (fst f)) fields = map fst props
       /\ NoDup (map (fun f => f_py (fst f)) fields).
-Proof. intros o fc props closed Hno HP. exact (model_wire_names o fc props closed Hno C03_tables_ok HP). Qed.
+Proof. intros o fc rq props closed Hno HP. exact (model_wire_names o fc rq props closed Hno C03_tables_ok HP). Qed.
 
 (* non-vacuity: the default options satisfy the hypotheses; a schema with renamed members, both draft
    styles, a nullable member, nested arrays and a union is supported, and a concrete instance is valid *)
@@ -48,10 +48,10 @@ Definition ex_value : json :=
 Example C03_hypotheses_hold :
   o_noalias schema_opts = false /\ prefix_ok U0 (o_prefix schema_opts) = true
   /\ supported ex_schema = true /\ valid ex_schema ex_value = true
-  /\ accepts (gen schema_opts false PTop ex_schema) ex_value = true.
+  /\ accepts (gen schema_opts false false PTop ex_schema) ex_value = true.
 Proof. vm_compute. repeat split; reflexivity. Qed.
 Example C03_missing_required_rejected :
-  accepts (gen schema_opts false PTop ex_schema) (VObj [(of_string "first-name", VStr (of_string "x"))]) = false.
+  accepts (gen schema_opts false false PTop ex_schema) (VObj [(of_string "first-name", VStr (of_string "x"))]) = false.
 Proof. vm_compute. reflexivity. Qed.
 
 Print Assumptions C03_tables_ok.
